@@ -1599,6 +1599,10 @@ VmTrap vm_core_execute(VmState *vm) {
                     s = vm_string_from_bool(&vm->heap, v.as.boolean);
                     stack_push(vm, val_string(s));
                     break;
+                case TAG_ENUM:
+                    s = vm_string_from_int(&vm->heap, (int64_t)v.as.enum_val);
+                    stack_push(vm, val_string(s));
+                    break;
                 default:
                     vm_release(&vm->heap, v);
                     s = vm_string_new(&vm->heap, "", 0);
